@@ -43,6 +43,14 @@ def _divide_and_round(a: float, b: float) -> int:
     return q
 
 
+def _total_microseconds(delta: timedelta) -> int:
+    """Exact length of a timedelta (years and months included) in microseconds."""
+    return (
+        timedelta.days.__get__(delta) * SECONDS_PER_DAY
+        + timedelta.seconds.__get__(delta)
+    ) * US_PER_SECOND + timedelta.microseconds.__get__(delta)
+
+
 def _timedelta_to_microseconds(delta: timedelta) -> int:
     if isinstance(delta, Duration):
         return delta._to_microseconds()
@@ -340,7 +348,9 @@ class Duration(timedelta):
 
     def __add__(self, other: timedelta) -> Self:
         if isinstance(other, timedelta):
-            return self.__class__(seconds=self.total_seconds() + other.total_seconds())
+            return self.__class__(
+                microseconds=_total_microseconds(self) + _total_microseconds(other)
+            )
 
         return NotImplemented
 
@@ -348,7 +358,9 @@ class Duration(timedelta):
 
     def __sub__(self, other: timedelta) -> Self:
         if isinstance(other, timedelta):
-            return self.__class__(seconds=self.total_seconds() - other.total_seconds())
+            return self.__class__(
+                microseconds=_total_microseconds(self) - _total_microseconds(other)
+            )
 
         return NotImplemented
 
@@ -370,7 +382,13 @@ class Duration(timedelta):
             return self.__class__(
                 years=self._years * other,
                 months=self._months * other,
-                seconds=self._total * other,
+                microseconds=(
+                    _total_microseconds(self)
+                    - (self._years * 365 + self._months * 30)
+                    * SECONDS_PER_DAY
+                    * US_PER_SECOND
+                )
+                * other,
             )
 
         if isinstance(other, float):
